@@ -801,3 +801,221 @@ pub fn render_with_layout(
     layouts.push(trail);
     Rendered { text, spans, layouts }
 }
+
+// ---------------------------------------------------------------------------------------
+// G-lang: every construct of the grammar language (valid by construction)
+
+#[derive(Clone, Debug)]
+pub struct LangParams {
+    pub max_nts: usize,
+    pub max_alts: usize,
+    pub max_syms: usize,
+    pub sugar: bool,
+    pub meta: bool,
+    pub assigns: bool,
+    pub inline: bool,
+    /// rule-level and production-level associativity may be combined (C09 only)
+    pub mixed_assoc: bool,
+}
+
+impl LangParams {
+    pub fn full() -> Self {
+        LangParams { max_nts: 5, max_alts: 3, max_syms: 4, sugar: true, meta: true, assigns: true, inline: true, mixed_assoc: true }
+    }
+}
+
+#[derive(Clone, Debug)]
+struct RawSym {
+    is_nt: bool,
+    idx: u16,
+    inline: u8,
+    rep: u8,
+    sep: u16,
+    assign: u8,
+}
+
+#[derive(Clone, Debug)]
+struct RawMeta {
+    prio: u8,
+    assoc: u8,
+    flags: u8,
+    kind: u8,
+    user: u8,
+}
+
+fn raw_sym() -> impl Strategy<Value = RawSym> {
+    (prop::bool::weighted(0.4), any::<u16>(), any::<u8>(), any::<u8>(), any::<u16>(), any::<u8>())
+        .prop_map(|(is_nt, idx, inline, rep, sep, assign)| RawSym { is_nt, idx, inline, rep, sep, assign })
+}
+
+fn raw_meta() -> impl Strategy<Value = RawMeta> {
+    (any::<u8>(), any::<u8>(), any::<u8>(), any::<u8>(), any::<u8>())
+        .prop_map(|(prio, assoc, flags, kind, user)| RawMeta { prio, assoc, flags, kind, user })
+}
+
+const KINDS: [&str; 6] = ["Add", "Sub", "K1", "Neg", "Paren", "Item"];
+const ASSIGN_NAMES: [&str; 6] = ["x", "y", "val", "item", "lhs", "rest"];
+const USER_KEYS: [&str; 3] = ["weight", "tag", "flag"];
+
+fn build_meta(m: &RawMeta, on: bool, allow_kind: bool, allow_assoc: bool) -> Meta {
+    let mut out = Meta::default();
+    if !on {
+        return out;
+    }
+    if m.prio % 4 == 0 {
+        out.prio = Some(PRIOS[(m.prio as usize / 4) % PRIOS.len()]);
+    }
+    if allow_assoc && m.assoc % 4 == 0 {
+        out.assoc = Some(ASSOCS[(m.assoc as usize / 4) % ASSOCS.len()]);
+    }
+    if m.flags % 8 == 0 {
+        out.nops = true;
+    }
+    if m.flags % 8 == 1 {
+        out.nopse = true;
+    }
+    if allow_kind && m.kind % 5 == 0 {
+        out.kind = Some(KINDS[(m.kind as usize / 5) % KINDS.len()].to_string());
+    }
+    if m.user % 6 == 0 {
+        let k = USER_KEYS[(m.user as usize / 6) % USER_KEYS.len()].to_string();
+        let v = match (m.user / 18) % 4 {
+            0 => UserVal::Int(m.user as u32),
+            1 => UserVal::Bool(m.user % 2 == 0),
+            2 => UserVal::Str("s t".into()),
+            _ => UserVal::Float("1.5".into()),
+        };
+        out.user.push((k, v));
+    }
+    out
+}
+
+pub fn lang_terms() -> Vec<TermSpec> {
+    let mut t = vec![
+        TermSpec::str("Ta", "a"),
+        TermSpec::str("Tb", "b"),
+        TermSpec::str("Comma", ","),
+        TermSpec::str("Plus", "+"),
+        TermSpec::str("LPar", "("),
+        TermSpec::str("RPar", ")"),
+        TermSpec::str("Semi", ";"),
+        TermSpec::str("KwIf", "if"),
+    ];
+    t.push(TermSpec::regex("Num", "\\d+", &["1", "42", "7"]));
+    t.push(TermSpec::regex("Id", "[x-z]+", &["x", "yz", "zx"]));
+    t
+}
+
+pub fn g_lang(p: LangParams) -> impl Strategy<Value = GrammarSpec> {
+    let max_alts = p.max_alts;
+    let max_syms = p.max_syms;
+    (
+        any::<u32>(),
+        proptest::collection::vec(
+            (
+                proptest::collection::vec((proptest::collection::vec(raw_sym(), 0..=max_syms), raw_meta()), 1..=max_alts),
+                proptest::collection::vec(any::<u16>(), 0..=2),
+                raw_meta(),
+            ),
+            1..=p.max_nts,
+        ),
+        proptest::collection::vec((any::<u8>(), any::<u8>()), 10),
+    )
+        .prop_map(move |(mask, rules, tmeta)| {
+            let pool = lang_terms();
+            let mut terms = select_terms(&pool, mask, 7, 3);
+            for (i, t) in terms.iter_mut().enumerate() {
+                if p.meta {
+                    let (a, b) = tmeta[i % tmeta.len()];
+                    if a % 6 == 0 {
+                        t.prio = Some(PRIOS[(a as usize / 6) % PRIOS.len()]);
+                    }
+                    if b % 6 == 0 {
+                        t.assoc = ASSOCS[(b as usize / 6) % ASSOCS.len()];
+                    }
+                }
+            }
+            let nt = terms.len();
+            let nn = rules.len();
+            let str_terms: Vec<usize> = (0..nt).filter(|i| !terms[*i].is_regex()).collect();
+            let mut out_rules = vec![];
+            for (i, (alts, base, rmeta)) in rules.iter().enumerate() {
+                let rule_meta = build_meta(rmeta, p.meta && rmeta.kind % 3 == 0, false, true);
+                let mut out_alts: Vec<AltSpec> = vec![];
+                for (syms, ameta) in alts {
+                    let mut uses = vec![];
+                    let mut used_names: Vec<String> = vec![];
+                    for s in syms {
+                        let sym = if s.is_nt { Sym::N(pick(s.idx, nn)) } else { Sym::T(pick(s.idx, nt)) };
+                        let mut u = SymUse::plain(sym);
+                        if let Sym::T(t) = sym {
+                            if p.inline && !terms[t].is_regex() && s.inline % 3 == 0 {
+                                u.inline = true;
+                                u.dquote = s.inline % 2 == 0;
+                            }
+                        }
+                        if p.sugar && s.rep % 4 == 0 {
+                            let op = match (s.rep / 4) % 3 {
+                                0 => RepOp::Opt,
+                                1 => RepOp::Star,
+                                _ => RepOp::Plus,
+                            };
+                            let sep = if op != RepOp::Opt && (s.rep / 12) % 2 == 0 && !str_terms.is_empty() {
+                                Some(str_terms[pick(s.sep, str_terms.len())])
+                            } else {
+                                None
+                            };
+                            u.rep = Some((op, sep));
+                        }
+                        if p.assigns && s.assign % 4 == 0 {
+                            let base = ASSIGN_NAMES[(s.assign as usize / 4) % ASSIGN_NAMES.len()];
+                            let mut name = base.to_string();
+                            let mut k = 2;
+                            while used_names.contains(&name) {
+                                name = format!("{base}{k}");
+                                k += 1;
+                            }
+                            used_names.push(name.clone());
+                            u.assign = Some((name, (s.assign / 24) % 3 == 0));
+                        }
+                        uses.push(u);
+                    }
+                    let allow_assoc = p.mixed_assoc || rule_meta.assoc.is_none();
+                    out_alts.push(AltSpec { syms: uses, meta: build_meta(ameta, p.meta, true, allow_assoc) });
+                }
+                // productive base alternative (terminals and later rules only)
+                let later = nn - i - 1;
+                let b: Vec<SymUse> = base
+                    .iter()
+                    .map(|v| {
+                        let k = pick(*v, nt + later);
+                        SymUse::plain(if k < nt { Sym::T(k) } else { Sym::N(i + 1 + (k - nt)) })
+                    })
+                    .collect();
+                out_alts.push(AltSpec { syms: b, meta: Meta::default() });
+                // `A: A` is rejected by the compiler
+                out_alts.retain(|a| !(a.syms.len() == 1 && a.syms[0].sym == Sym::N(i) && a.syms[0].rep.is_none()));
+                // production kinds must be unique within a rule (they name enum variants)
+                let mut seen_kinds: Vec<String> = vec![];
+                for a in out_alts.iter_mut() {
+                    if let Some(k) = &a.meta.kind {
+                        if seen_kinds.contains(k) {
+                            a.meta.kind = None;
+                        } else {
+                            seen_kinds.push(k.clone());
+                        }
+                    }
+                }
+                if out_alts.is_empty() {
+                    out_alts.push(AltSpec::of(vec![Sym::T(0)]));
+                }
+                out_rules.push(RuleSpec {
+                    name: NT_NAMES[i].to_string(),
+                    annotation: None,
+                    meta: rule_meta,
+                    alts: out_alts,
+                });
+            }
+            GrammarSpec { terms, rules: out_rules, layout: None }
+        })
+}
